@@ -67,6 +67,22 @@ pub fn execute(
     info: MessageInfo,
     msg: ExecuteMsg,
 ) -> Result<Response, ContractError> {
+    // Only the deposit messages use attached funds (the receive wrappers check for themselves),
+    // every other message must refuse them rather than silently keep them
+    if !info.funds.is_empty()
+        && !matches!(
+            msg,
+            ExecuteMsg::Receive(_)
+                | ExecuteMsg::ReceiveNft(_)
+                | ExecuteMsg::CreateListing { .. }
+                | ExecuteMsg::AddToListing { .. }
+                | ExecuteMsg::CreateBucket { .. }
+                | ExecuteMsg::AddToBucket { .. }
+        )
+    {
+        return Err(ContractError::GenericError("This message does not accept funds".to_string()));
+    }
+
     match msg {
         ExecuteMsg::FeeCycle {} => execute_cycle_fee(deps, env),
 
